@@ -200,4 +200,156 @@ theorem payload_eq (cfg : Config) (s : State) (block : SignedBlock) (payload : E
         ofOpt_bind, hne, hne2, if_false, toRes_ite, hlen, toRes_invalid, hx, decide_true, if_true] <;>
       close_cases
 
+
+/-- every epoch stored in the registry is a `uint64` -/
+def RegU64 (vals : List Validator) : Prop := ∀ v ∈ vals, v.exit_epoch < 2 ^ 64 ∧ v.withdrawable_epoch < 2 ^ 64
+
+/-- magnitude hypothesis of exits: the queue end plus the delays stays inside `uint64` -/
+def ExitSmall (cfg : Config) (s : State) : Prop :=
+  maxOf (s.slot / cfg.SLOTS_PER_EPOCH + 1 + cfg.MAX_SEED_LOOKAHEAD) (s.validators.map (·.exit_epoch)) + 1 +
+    cfg.MIN_VALIDATOR_WITHDRAWABILITY_DELAY < 2 ^ 64
+
+theorem initiateExit_state_eq (cfg : Config) (ctx : Ctx) (s : State) (index : Nat)
+    (hact : ctx.activeCount = (s.validators.filter (is_active_validator · (s.slot / cfg.SLOTS_PER_EPOCH))).length)
+    (hq : cfg.CHURN_LIMIT_QUOTIENT ≠ 0) (hreg : RegU64 s.validators) (hsmall : ExitSmall cfg s) :
+    initiateExit cfg ctx s index = toRes (initiate_validator_exit cfg s index) := by
+  unfold initiateExit initiate_validator_exit get_current_epoch compute_epoch_at_slot
+  by_cases hidx : index < s.validators.length
+  · have hex : ∀ v ∈ s.validators, v.exit_epoch ≤ FAR_FUTURE_EPOCH := by
+      intro v hv; have := (hreg v hv).1; unfold FAR_FUTURE_EPOCH; omega
+    rw [BeaconBlock.initiateExit_eq cfg _ ctx.activeCount s.validators index hidx hact hq hex hsmall]
+    have h1 : idx s.validators index "validators" = Except.ok s.validators[index] := idx_ok _ _ _ hidx
+    simp only [toRes_bind, h1, toRes_ok, res_bind_ok, hq, if_false, toRes_ite]
+    -- the validator at `index` after the update
+    generalize hvals : initiate_validator_exit_pure cfg (s.slot / cfg.SLOTS_PER_EPOCH) s.validators index = vals
+    have hlen : vals.length = s.validators.length := by
+      rw [← hvals]; unfold initiate_validator_exit_pure
+      rw [List.getElem?_eq_getElem hidx]; simp only; split <;> simp
+    have hidx' : index < vals.length := by omega
+    have h2 : idx vals index "validators" = Except.ok vals[index] := idx_ok _ _ _ hidx'
+    have hb : vals[index].exit_epoch < 2 ^ 64 ∧ vals[index].withdrawable_epoch < 2 ^ 64 := by
+      subst hvals
+      unfold initiate_validator_exit_pure
+      simp only [List.getElem?_eq_getElem hidx]
+      by_cases hfar : s.validators[index].exit_epoch ≠ FAR_FUTURE_EPOCH
+      · simp only [hfar, ne_eq, not_false_eq_true, if_true]
+        exact hreg _ (List.getElem_mem hidx)
+      · simp only [hfar, if_false, List.getElem_set_self]
+        rw [spec_max_eq]
+        unfold ExitSmall at hsmall
+        unfold compute_activation_exit_epoch
+        constructor <;> (split <;> omega)
+    simp only [h2, toRes_ok, res_bind_ok, u64_ok _ _ hb.1, u64_ok _ _ hb.2, toRes_pure]
+    rfl
+  · have h1 : s.validators[index]? = none := by simp; omega
+    simp [initiateValidatorExit, h1, idx, toRes_bind, invalid, throw, throwThe, MonadExceptOf.throw, toRes, bind, Except.bind, Res.bind]
+
+/-- (c) `ProcessVoluntaryExit` (`ValidateVoluntaryExit` + `InitiateValidatorExit`) = `process_voluntary_exit`,
+accept/reject and post-state. -/
+theorem exit_eq (cfg : Config) (ctx : Ctx) (s : State) (exit : SignedVoluntaryExit)
+    (hact : ctx.activeCount = (s.validators.filter (is_active_validator · (s.slot / cfg.SLOTS_PER_EPOCH))).length)
+    (hq : cfg.CHURN_LIMIT_QUOTIENT ≠ 0) (hreg : RegU64 s.validators) (hsmall : ExitSmall cfg s)
+    (hshard : s.slot / cfg.SLOTS_PER_EPOCH + cfg.SHARD_COMMITTEE_PERIOD < 2 ^ 64) :
+    processVoluntaryExit cfg ctx s exit = toRes (Block.process_voluntary_exit cfg s exit) := by
+  unfold processVoluntaryExit Block.process_voluntary_exit
+  rw [initiateExit_state_eq cfg ctx s exit.validator_index hact hq hreg hsmall]
+  unfold get_current_epoch compute_epoch_at_slot is_active_validator
+  simp only [toRes_bind, toRes_require, toRes_idx, toRes_pure, toRes_ok, res_bind_ok, guard_bind, rget_bind]
+  generalize toRes (initiate_validator_exit cfg s exit.validator_index) = fin
+  cases hv : s.validators[exit.validator_index]? with
+  | none =>
+    have : ¬ exit.validator_index < s.validators.length := by
+      intro hlt; simp [List.getElem?_eq_getElem hlt] at hv
+    simp [this]
+  | some v =>
+    have hlt : exit.validator_index < s.validators.length := (List.getElem?_eq_some_iff.mp hv).1
+    simp only [hlt, decide_true, if_true]
+    by_cases hactv : v.activation_epoch ≤ s.slot / cfg.SLOTS_PER_EPOCH
+    · have hsum : v.activation_epoch + cfg.SHARD_COMMITTEE_PERIOD < 2 ^ 64 := by omega
+      rw [w64_id _ hsum, u64_ok _ _ hsum]
+      simp only [toRes_ok, res_bind_ok]
+      close_cases
+    · by_cases hsum : v.activation_epoch + cfg.SHARD_COMMITTEE_PERIOD < 2 ^ 64
+      · rw [w64_id _ hsum, u64_ok _ _ hsum]
+        simp only [toRes_ok, res_bind_ok]
+        close_cases
+      · simp [hactv]
+
+
+/-! ### frame: what the proposer of the slot depends on -/
+
+/-- `s'` has the same slot and randao history as `s`, the same number of validators, and every validator has
+the same effective balance and the same activity in the current epoch. -/
+def SameDuties (cfg : Config) (s s' : State) : Prop :=
+  s'.slot = s.slot ∧ s'.randao_mixes = s.randao_mixes ∧ s'.validators.length = s.validators.length ∧
+  ∀ (i : Nat) (v v' : Validator), s.validators[i]? = some v → s'.validators[i]? = some v' →
+    v'.effective_balance = v.effective_balance ∧
+    is_active_validator v' (get_current_epoch cfg s) = is_active_validator v (get_current_epoch cfg s)
+
+theorem SameDuties.refl (cfg : Config) (s : State) : SameDuties cfg s s :=
+  ⟨rfl, rfl, rfl, fun i v v' h h' => by rw [h] at h'; cases h'; exact ⟨rfl, rfl⟩⟩
+
+theorem active_indices_frame (cfg : Config) (s s' : State) (h : SameDuties cfg s s') :
+    get_active_validator_indices s' (get_current_epoch cfg s) = get_active_validator_indices s (get_current_epoch cfg s) := by
+  unfold get_active_validator_indices active_indices_of
+  rw [h.2.2.1]
+  apply List.filter_congr
+  intro i hi
+  have hi' : i < s.validators.length := by simpa using hi
+  have hi'' : i < s'.validators.length := by rw [h.2.2.1]; exact hi'
+  have h1 : s.validators[i]? = some s.validators[i] := List.getElem?_eq_getElem hi'
+  have h2 : s'.validators[i]? = some s'.validators[i] := List.getElem?_eq_getElem hi''
+  rw [h1, h2]
+  exact (h.2.2.2 i _ _ h1 h2).2
+
+theorem proposer_loop_frame (cfg : Config) (s s' : State) (indices : List Nat) (seed : Bytes)
+    (heff : ∀ (i : Nat) (v v' : Validator), s.validators[i]? = some v → s'.validators[i]? = some v' → v'.effective_balance = v.effective_balance)
+    (hlen : s'.validators.length = s.validators.length) :
+    ∀ fuel i, Block.compute_proposer_index.loop cfg s' indices seed indices.length fuel i =
+              Block.compute_proposer_index.loop cfg s indices seed indices.length fuel i := by
+  intro fuel
+  induction fuel with
+  | zero => intro i; rfl
+  | succ f ih =>
+    intro i
+    unfold Block.compute_proposer_index.loop
+    cases hsh : compute_shuffled_index cfg (i % indices.length) indices.length seed with
+    | error e => rfl
+    | ok j =>
+      simp only [bind, Except.bind]
+      cases hc : idx indices j "indices" with
+      | error e => rfl
+      | ok c =>
+        simp only []
+        unfold idx
+        by_cases hcl : c < s.validators.length
+        · have hcl' : c < s'.validators.length := by omega
+          have h1 : s.validators[c]? = some s.validators[c] := List.getElem?_eq_getElem hcl
+          have h2 : s'.validators[c]? = some s'.validators[c] := List.getElem?_eq_getElem hcl'
+          rw [h1, h2]
+          simp only [pure, Except.pure, heff c _ _ h1 h2, ih]
+        · have hcl' : ¬ c < s'.validators.length := by omega
+          have h1 : s.validators[c]? = none := by simp; omega
+          have h2 : s'.validators[c]? = none := by simp; omega
+          rw [h1, h2]
+          rfl
+
+theorem compute_proposer_index_frame (cfg : Config) (s s' : State)
+    (heff : ∀ (i : Nat) (v v' : Validator), s.validators[i]? = some v → s'.validators[i]? = some v' → v'.effective_balance = v.effective_balance)
+    (hlen : s'.validators.length = s.validators.length) (indices : List Nat) (seed : Bytes) :
+    Block.compute_proposer_index cfg s' indices seed = Block.compute_proposer_index cfg s indices seed := by
+  unfold Block.compute_proposer_index
+  simp only [proposer_loop_frame cfg s s' indices seed heff hlen]
+
+/-- the proposer of the slot only depends on the duties-relevant part of the state -/
+theorem proposer_frame (cfg : Config) (s s' : State) (h : SameDuties cfg s s') :
+    Block.get_beacon_proposer_index cfg s' = Block.get_beacon_proposer_index cfg s := by
+  have hcur : get_current_epoch cfg s' = get_current_epoch cfg s := by
+    unfold get_current_epoch; rw [h.1]
+  have hseed : get_seed cfg s' (get_current_epoch cfg s) DOMAIN_BEACON_PROPOSER = get_seed cfg s (get_current_epoch cfg s) DOMAIN_BEACON_PROPOSER := by
+    unfold get_seed get_randao_mix; rw [h.2.1]
+  unfold Block.get_beacon_proposer_index
+  simp only [hcur, active_indices_frame cfg s s' h, h.1, hseed,
+    compute_proposer_index_frame cfg s s' (fun i v v' h1 h2 => (h.2.2.2 i v v' h1 h2).1) h.2.2.1]
+
 end Zrnt.Proofs.BlockM
